@@ -30,6 +30,12 @@ CMD_FN = {"dry": "_run_dry_lint", "stringly-typed": "_run_stringly_typed_lint", 
           "file-header": "_run_file_header_lint", "lbyl": "_run_lbyl_lint", "srp": "_run_srp_lint",
           "method-property": "_run_method_property_lint", "stateless-class": "_run_stateless_class_lint",
           "pipeline": "_run_pipeline_lint", "file-placement": "_execute_file_placement_lint"}
+# CLI command -> package under src/linters whose rule classes it is the front end of (the specification of what the
+# command ought to report: the findings of those rules; their rule ids are attributed by running each rule on its own)
+CMD_PKG = {"dry": "dry", "stringly-typed": "stringly_typed", "nesting": "nesting", "magic-numbers": "magic_numbers",
+           "improper-logging": "print_statements", "file-header": "file_header", "lbyl": "lbyl", "srp": "srp",
+           "method-property": "method_property", "stateless-class": "stateless_class", "pipeline": "collection_pipeline",
+           "file-placement": "file_placement"}
 CROSS_CMDS = ["dry", "dry", "dry", "stringly-typed", "stringly-typed"]
 LOCAL_CMDS = ["nesting", "magic-numbers", "improper-logging", "file-header", "lbyl", "srp", "method-property", "stateless-class", "pipeline", "file-placement"]
 
@@ -57,10 +63,11 @@ def gen_cases(seed: int, n: int) -> list:
             kind, as_dir = "single", None
             cmd = r.choice(CROSS_CMDS + LOCAL_CMDS[:6]) if r.random() < 0.8 else r.choice(LOCAL_CMDS)
             via = "cli" if r.random() < 0.6 else "inproc"
-            if r.random() < 0.55:
+            if r.random() < (0.35 if cmd in CROSS_CMDS else 0.55):
                 files, dirs = [r.choice(code + live[:1])], []
             else:
-                files, dirs = [], [r.choice(dirs_live)]
+                # cross-file commands mostly on the whole project, where their findings are
+                files, dirs = [], [0 if (cmd in CROSS_CMDS and r.random() < 0.7) else r.choice(dirs_live)]
         else:
             kind, as_dir = "multi", None
             cmd = r.choice(CROSS_CMDS + LOCAL_CMDS[:4])
@@ -153,11 +160,41 @@ def run_impl(case: dict) -> dict:
                 lin = oc.fresh_linter(root)
                 res["pf"].append([p, fs.get(p), [_c6(v, root) for v in lin.orchestrator.lint_file(root / paths[p])]])
                 del lin
+            if case["cmd"] and case["via"] == "cli":
+                res["emitted"] = attribute_rule_ids(root, proj, sorted(look))
             res["failures"] = drain_failures()
         except Exception as e:  # noqa: BLE001
             import traceback
             res["error"] = f"{type(e).__name__}: {e}\n{traceback.format_exc()[-1200:]}"
     return res
+
+
+def attribute_rule_ids(root: Path, proj: dict, pids: list) -> dict:
+    """package of src/linters -> rule ids its rule classes emit on these files (each rule object run on its own: check()
+    on every file, then finalize())"""
+    from src.orchestrator.core import FileLintContext
+    from src.orchestrator.language_detector import detect_language
+    orch = oc.fresh_linter(root).orchestrator
+    orch._ensure_rules_discovered()
+    out: dict = {}
+    for rule in orch.registry.list_all():
+        mod = type(rule).__module__.split(".")
+        pkg = mod[2] if len(mod) > 2 and mod[:2] == ["src", "linters"] else ".".join(mod)
+        ids = out.setdefault(pkg, set())
+        for p in pids:
+            f = root / proj["paths"][p]
+            if not f.is_file():
+                continue
+            ctx = FileLintContext(f, detect_language(f), metadata={**orch.config, "_project_root": orch.project_root})
+            try:
+                ids.update(str(v.rule_id) for v in rule.check(ctx))
+            except Exception:  # noqa: BLE001  (attribution only; failures are caught by the real runs)
+                pass
+        try:
+            ids.update(str(v.rule_id) for v in rule.finalize())
+        except Exception:  # noqa: BLE001
+            pass
+    return {k: sorted(v) for k, v in out.items()}
 
 
 def measure6(job):
@@ -213,9 +250,16 @@ def phase_judge(cases, impls, queries, measured, wd: Path, per_shard=10):
         rule_ids = sorted({t[0] for t in ids.map})
         rid = "[" + "; ".join(f"({n}%N, {rule_ids.index(t[0])})" for t, n in ids.map.items()) + "]"
         fn = CMD_FN.get(case["cmd"], "?") if (case["cmd"] and case["via"] == "cli") else ""
+        spec_rules = []
+        if fn:
+            em = impl.get("emitted") or {}
+            mine = set(em.get(CMD_PKG.get(case["cmd"], "?"), []))
+            others = {x for k, v in em.items() if k != CMD_PKG.get(case["cmd"], "?") for x in v}
+            # a rule id is the command's iff a rule class of its package emits it and no other package does
+            spec_rules = [j for j, x in enumerate(rule_ids) if x in mine and x not in others]
         lines.append(
             f"Eval vm_compute in (judge10 {_ctx(case, impl)} {pf_tbl} [{'; '.join(rows)}] {coq.coq_list([coq.coq_string(x) for x in rule_ids])} {rid} "
-            f"{oc.coq_N_list(sorted(cross))} orch_actual {oc.coq_fs(case['proj']['fs0'])} {coq.coq_string(fn)} {oc.coq_nat_list(impl['files'])} {_dirs(impl)} "
+            f"{oc.coq_N_list(sorted(cross))} {oc.coq_nat_list(spec_rules)} orch_actual {oc.coq_fs(case['proj']['fs0'])} {coq.coq_string(fn)} {oc.coq_nat_list(impl['files'])} {_dirs(impl)} "
             f"{oc.coq_N_list(cli)} [{'; '.join(oc.coq_N_list(a) for a in api)}]).")
     shards = ["\n".join(lines[s:s + per_shard]) for s in range(0, len(lines), per_shard)]
     flat = [x for o in coq.eval_shards(wd / "j", HEADER, shards) for x in o]
@@ -246,6 +290,7 @@ def run(tier: str, seed: int, replay: str | None = None) -> int:
     chk.build(["theories/Props/C10.v"], ["OrchHistGen"], known_v=["theories/Props/C10Known.v"])
     scale = chk.budget_scale()
     n = (150 if tier == "quick" else 1500) * scale
+    n = min(n, int(os.environ.get("VERIF_CASES_CAP", n)))   # self-test runs on mutated copies use a smaller budget
     if replay:
         cases = [json.loads(Path(replay).read_text())["violation"]["case"]]
     else:
@@ -287,6 +332,18 @@ def run(tier: str, seed: int, replay: str | None = None) -> int:
                 chk.violation({"reason": "Linter.lint(path, rules=R) is not the unfiltered result restricted to R", "rules": impl["api_rules"]["rules"], "case": case})
         bits = verdicts.get(i)
         if bits is None:
+            # the model could not be evaluated (a generated item or proof broke): fall back to the plain differential
+            # oracle on what every quirk vector agrees on - the per-file findings of both routes
+            def _pf(vs):
+                return sorted(v for v in vs if oc.kind_of(v[0], v[4]) is None)
+            api_all = [v for a in impl["api"] for v in a]
+            if case["cmd"] and case["via"] == "cli":
+                em = impl.get("emitted") or {}
+                mine = set(em.get(CMD_PKG.get(case["cmd"], "?"), []))
+                api_all = [v for v in api_all if v[0] in mine]
+            if _pf(impl["cli"]) != _pf(api_all):
+                chk.violation({"reason": "command-line run and library API disagree on the per-file findings of the same target(s) (model not evaluated)",
+                               "cli_only": [v for v in _pf(impl["cli"]) if v not in api_all][:4], "api_only": [v for v in _pf(api_all) if v not in impl["cli"]][:4], "case": case})
             continue
         bits = [bool(b) for b in bits]
         full_ok, pf_ok, ideal_ok, cand = bits[0], bits[1], bits[2], bits[3:]
